@@ -10,6 +10,7 @@ theorem rawRead_some {remote : Bytes} {pos size : Nat} {o : RdOut} {x : Bytes}
   unfold rawRead at h
   cases o with
   | fail c => simp at h
+  | drop => simp at h
   | data k =>
     simp only at h
     split at h
@@ -29,6 +30,7 @@ theorem rawRead_none {remote : Bytes} {pos size : Nat} {o : RdOut} (hs : 0 < siz
   unfold rawRead at h
   cases o with
   | fail c => simp at h
+  | drop => simp at h
   | data k =>
     simp only at h
     split at h
@@ -120,5 +122,17 @@ theorem transfer_fail {remote : Bytes} {maxReq chunk fuel c : Nat} {loc : Bytes}
     transfer remote maxReq chunk (fuel + 1) loc (.fail c :: rest) = .raised c := by
   unfold transfer
   rw [readLoop_fail (by simpa using hc)]
+
+theorem readLoop_drop {remote : Bytes} {maxReq fuel pos want : Nat} {got : Bytes} {rest : List RdOut}
+    (hw : got.length < want) :
+    readLoop remote maxReq (fuel + 1) pos want got (.drop :: rest) = .error 3000 := by
+  unfold readLoop
+  have : ¬ got.length ≥ want := by omega
+  simp [this, nextOut, rawRead]
+
+theorem transfer_drop {remote : Bytes} {maxReq chunk fuel : Nat} {loc : Bytes} {rest : List RdOut} (hc : 0 < chunk) :
+    transfer remote maxReq chunk (fuel + 1) loc (.drop :: rest) = .raised 3000 := by
+  unfold transfer
+  rw [readLoop_drop (by simpa using hc)]
 
 end PV.SftpGet
